@@ -30,11 +30,14 @@ KINDS = {
     "prefixed": (["Prefixed", B, ["name", "GreedyBytes"]], "prefixed"), "prefixed-incl": (["Prefixed", B, ["name", "GreedyBytes"], True], "prefixed"),
     "prefixed-fixed": (["Prefixed", B, ["Bytes", 1]], "prefixed"), "prefixed-varint": (["Prefixed", ["name", "VarInt"], ["name", "GreedyBytes"]], "prefixed"),
     "parray": (["PrefixedArray", B, ["name", "Int16ub"]], "prefixed"), "pascal": (["PascalString", B, "ascii"], "prefixed"),
+    # length-prefixed members whose elements / count have no static size
+    "parray-varint": (["PrefixedArray", B, ["name", "VarInt"]], "prefixed"), "parray-vcount": (["PrefixedArray", ["name", "VarInt"], B], "prefixed"),
+    "parray-cstring": (["PrefixedArray", B, ["CString", "ascii"]], "prefixed"), "prefixed-struct": (["Prefixed", B, ["Struct", [["a", B], ["r", ["name", "GreedyBytes"]]]]], "prefixed"),
     "varint": (["name", "VarInt"], "unsizable"), "cstring": (["CString", "ascii"], "unsizable"),
     "default": (["Default", B, 7], "fixed"), "padded": (["Padded", 3, B], "fixed"), "flag": (["name", "Flag"], "fixed"),
     "const": (["Const", tag(b"\x7f"), None], "fixed"), "padding": (["Padding", 2], "fixed"),
 }
-UNNAMED_OK = ["const", "padding", "byte", "prefixed", "parray", "varint", "bytes3", "prefixed-incl"]
+UNNAMED_OK = ["const", "padding", "byte", "prefixed", "parray", "varint", "bytes3", "prefixed-incl", "parray-varint", "parray-vcount"]
 
 
 def genval(kind, rng):
@@ -54,6 +57,14 @@ def genval(kind, rng):
         return bytes([rng.randrange(256)])
     if kind == "parray":
         return [rng.randrange(65536) for _ in range(rng.randrange(0, 4))]
+    if kind == "parray-varint":
+        return [rng.choice([0, 1, 5, 127, 128, 300, 70000]) for _ in range(rng.randrange(0, 4))]
+    if kind == "parray-vcount":
+        return [rng.randrange(256) for _ in range(rng.randrange(0, 4))]
+    if kind == "parray-cstring":
+        return ["".join(rng.choice("abXY") for _ in range(rng.randrange(0, 3))) for _ in range(rng.randrange(0, 3))]
+    if kind == "prefixed-struct":
+        return {"a": rng.randrange(256), "r": bytes(rng.randrange(256) for _ in range(rng.randrange(0, 3)))}
     if kind == "pascal":
         return "".join(rng.choice("abcXYZ ") for _ in range(rng.randrange(0, 5)))
     if kind == "varint":
